@@ -43,6 +43,7 @@ struct result {
 	uintptr_t newpc[MAXNEWPC];
 	int nrec;
 	char msg[768];
+	char sample[640];		/* harness-provided description of what this execution did (for evidence samples) */
 	struct rec rec[MAXREC];
 };
 
